@@ -262,6 +262,22 @@ class Inotify:
             if inotify_rm_watch(self._inotify_fd, wd) == -1:
                 Inotify._raise_error()
 
+    def remove_watches_under(self, path: bytes) -> None:
+        """Stops watching ``path`` and everything below it.
+
+        Used when a watched directory has left the monitored tree: its kernel
+        watches follow the inode, so they would keep reporting changes under
+        the old path.
+        """
+        with self._lock:
+            if self._closed:
+                return
+            prefix = path + os.path.sep.encode()
+            for watched_path in [p for p in self._wd_for_path if p == path or p.startswith(prefix)]:
+                wd = self._wd_for_path.pop(watched_path)
+                # _path_for_wd[wd] is dropped when the kernel confirms with IN_IGNORED.
+                inotify_rm_watch(self._inotify_fd, wd)
+
     def close(self) -> None:
         """Closes the inotify instance and removes all associated watches."""
         with self._lock:
